@@ -3,6 +3,7 @@ package rules
 import (
 	"net/netip"
 	"strconv"
+	"strings"
 )
 
 // Exported shims for harnesses that live in other packages of the module.
@@ -174,4 +175,105 @@ func verifNetText(n netip.Prefix) string {
 		return n.Addr().String()
 	}
 	return n.String()
+}
+
+// ---------------------------------------------------------------------------
+// C01 / C19 / C13: rules for the lookup-table harnesses.
+
+// verifDomainOK: d (over {z,q,.,*}) is a value the $domain parser accepts:
+// labels of letters, no empty label, a final label of >= 2 letters or the "*" wildcard.
+func verifDomainOK(d string) bool {
+	n := len(d)
+	if n < 3 || d[0] == '.' || d[0] == '*' {
+		return false
+	}
+	ok := true
+	for i := 0; i < n; i++ {
+		if d[i] == '*' && !(i == n-1 && d[i-1] == '.') {
+			ok = false
+		}
+		if i+1 < n && d[i] == '.' && d[i+1] == '.' {
+			ok = false
+		}
+	}
+	if d[n-1] == '.' {
+		ok = false
+	}
+	// the last label has at least two letters unless it is the wildcard
+	if d[n-1] != '*' && (d[n-2] == '.' || !verifHasDot(d)) {
+		ok = false
+	}
+	return ok
+}
+
+func verifHasDot(d string) bool {
+	has := false
+	for i := 0; i < len(d); i++ {
+		if d[i] == '.' {
+			has = true
+		}
+	}
+	return has
+}
+
+// VerifTableRule builds a rule for the lookup-table harnesses: the pattern is
+// the literal shortcut (shortcutLen symbolic bytes over {a,b,:,/}, or "*" when
+// shortcutLen is 0) and ndom $domain values of domLen symbolic bytes over {z,q,.,*}.
+// Natively the rule is parsed from its text.
+func VerifTableRule(p string, shortcutLen, ndom, domLen int) *NetworkRule {
+	r := &NetworkRule{RuleText: p, FilterListID: 1}
+	if shortcutLen == 0 {
+		r.pattern = "*"
+	} else {
+		sc := verifString(p+".shortcut", shortcutLen, "ab:/")
+		r.pattern = sc
+		r.Shortcut = sc
+		verifAssume(sc[0] != '/' || sc[shortcutLen-1] != '/') // not a regular expression rule
+	}
+	for i := 0; i < ndom; i++ {
+		d := verifString(vn(p+".dom", i, ""), domLen, "zq.*")
+		verifAssume(verifDomainOK(d))
+		r.permittedDomains = append(r.permittedDomains, d)
+	}
+	if verifSymbolic() {
+		return r
+	}
+	text := r.pattern
+	if ndom > 0 {
+		text += "$domain=" + verifJoin(r.permittedDomains, "|")
+	}
+	parsed, err := NewNetworkRule(text, 1)
+	if err != nil {
+		panic(verifSkip{"table rule rejected by the parser: " + text + ": " + err.Error()})
+	}
+	if parsed.Shortcut != r.Shortcut || len(parsed.permittedDomains) != ndom {
+		panic(verifSkip{"parsed table rule differs: " + text})
+	}
+	verifRealised = append(verifRealised, text)
+	return parsed
+}
+
+func verifJoin(xs []string, sep string) string {
+	out := ""
+	for i, x := range xs {
+		if i > 0 {
+			out += sep
+		}
+		out += x
+	}
+	return out
+}
+
+// verifMatchPatternLiteral replaces (*NetworkRule).matchPattern in the table
+// harnesses: for a literal lower-case pattern the compiled expression accepts a
+// URL iff the lower-cased URL contains it (C03 covers the compiled expression).
+func verifMatchPatternLiteral(f *NetworkRule, r *Request) bool {
+	if f.pattern == "*" {
+		return true
+	}
+	return verifContainsFold(r.URL, f.pattern)
+}
+
+func verifContainsFold(u, lit string) bool {
+	return strings.Contains(strings.ToLower(u), lit)
 }
